@@ -72,6 +72,7 @@ type Outcome struct {
 	Inconclusive string // non-empty: infrastructure/timing trouble, never a violation
 	Signature    string // optional stable identification of the failure (for known findings)
 	TimedOut     bool   // the failure is a wall-clock bound being hit (needs confirmation before it counts)
+	SkipCount    bool   // batch wrapper: its scenarios were already accounted for one by one
 }
 
 // Confirm re-runs a case whose only failure was a time bound with a larger bound: if it then
@@ -188,6 +189,15 @@ func (r *Recorder) SetExhaustive(b bool) {
 func (r *Recorder) Done(c any, o Outcome) {
 	r.mu.Lock()
 	defer r.mu.Unlock()
+	if o.SkipCount {
+		if o.Err != nil {
+			r.st.Violations++
+			ff := failureFile{Property: r.st.Property, Part: r.st.Part, Message: o.Err.Error(), Signature: o.Signature, Case: canon(c)}
+			p := filepath.Join(WorkDir(), fmt.Sprintf("last-failure-%s-%s.json", r.st.Part, r.shard))
+			os.WriteFile(p, canon(ff), 0o644)
+		}
+		return
+	}
 	r.st.Evaluations++
 	dedup := map[string]bool{}
 	for _, cl := range o.Classes {
